@@ -26,10 +26,39 @@ type c01Gen struct {
 	nn, gn  int
 	closure map[*c01Stmt]map[*c01Stmt]bool
 	rich    bool
+	// names of the scoped groupings whose scope generation is currently inside: a scoped grouping
+	// never takes the name of a grouping of an enclosing scope (RFC 7950 5.5: no shadowing), but
+	// groupings in DISJOINT scopes of one module freely share names
+	encl []string
 }
 
 func (g *c01Gen) node() string  { g.nn++; return fmt.Sprintf("n%d", g.nn) }
 func (g *c01Gen) group() string { g.gn++; return fmt.Sprintf("g%d", g.gn) }
+
+// name of a scoped (nested or sibling-scoped) grouping: from a pool of three per module set, so
+// that disjoint scopes regularly define different groupings under one name. Module-level
+// groupings are g<n>, extracted/renamed ones gx<n>: no scoped name shadows one of them.
+func (g *c01Gen) scopedName() string {
+	var free []string
+	for _, n := range []string{"s1", "s2", "s3"} {
+		taken := false
+		for _, e := range g.encl {
+			if e == n {
+				taken = true
+			}
+		}
+		if !taken {
+			free = append(free, n)
+		}
+	}
+	if len(free) == 0 {
+		return g.group()
+	}
+	return gen.Pick(g.r, free)
+}
+
+func (g *c01Gen) push(n string) { g.encl = append(g.encl, n) }
+func (g *c01Gen) pop()          { g.encl = g.encl[:len(g.encl)-1] }
 
 var c01Exprs = []string{"a > 1", "b = 'x'", "../c != 0", "count(d) < 3", "e", "not(f)"}
 
@@ -234,14 +263,19 @@ func (g *c01Gen) kids(depth int, reg *c01Region, vis []*c01Stmt, maxN int) []*c0
 		case roll < 45 && depth < 3:
 			c := &c01Stmt{T: tNode, K: kCont, Name: g.node(), P: g.props(kCont)}
 			v2 := vis
-			if g.rich && r.Chance(20, 100) {
+			scoped := g.rich && r.Chance(20, 100)
+			if scoped {
 				// sibling-scoped grouping: visible to the container's members only
-				sg := &c01Stmt{T: tGrouping, Name: g.group()}
+				sg := &c01Stmt{T: tGrouping, Name: g.scopedName()}
+				g.push(sg.Name)
 				sg.Kids = g.kidsOfGrouping(sg, depth+1, vis)
 				c.Grps = append(c.Grps, sg)
 				v2 = append(append([]*c01Stmt(nil), vis...), sg)
 			}
 			c.Kids = g.kids(depth+1, newC01Region(), v2, 3)
+			if scoped {
+				g.pop()
+			}
 			out = append(out, c)
 		case roll < 55 && depth < 3:
 			l := &c01Stmt{T: tNode, K: kList, Name: g.node(), P: g.props(kList)}
@@ -274,14 +308,19 @@ func (g *c01Gen) kids(depth int, reg *c01Region, vis []*c01Stmt, maxN int) []*c0
 func (g *c01Gen) kidsOfGrouping(gr *c01Stmt, depth int, vis []*c01Stmt) []*c01Stmt {
 	reg := newC01Region()
 	v2 := vis
-	if g.rich && depth < 2 && g.r.Chance(20, 100) {
+	nested := g.rich && depth < 2 && g.r.Chance(20, 100)
+	if nested {
 		// grouping nested in the grouping: visible to its body only
-		ng := &c01Stmt{T: tGrouping, Name: g.group()}
+		ng := &c01Stmt{T: tGrouping, Name: g.scopedName()}
+		g.push(ng.Name)
 		ng.Kids = g.kidsOfGrouping(ng, depth+1, vis)
 		gr.Grps = append(gr.Grps, ng)
 		v2 = append(append([]*c01Stmt(nil), vis...), ng)
 	}
 	ks := g.kids(depth, reg, v2, 3)
+	if nested {
+		g.pop()
+	}
 	cl := map[*c01Stmt]bool{gr: true}
 	for x := range reg.used {
 		cl[x] = true
@@ -349,6 +388,43 @@ func c01GenModset(r *gen.Rng, idx int, rich bool) *c01Modset {
 				c.Kids = []*c01Stmt{g.mkUses(t, newC01Region())}
 				ms.Main.Body = append(ms.Main.Body, c)
 			}
+		}
+	}
+	if rich && r.Chance(40, 100) {
+		// one NAME, two different scoped groupings in disjoint scopes of one file, each used in
+		// its own scope: (0) private to two sibling containers, (1) nested in two module-level
+		// groupings, (2) one of each
+		f := locals[r.Intn(len(locals))]
+		vis := visLocal
+		if f == ms.Main {
+			vis = append(append([]*c01Stmt(nil), visLocal...), visMain...)
+		}
+		name := g.scopedName()
+		shape := r.Intn(3)
+		for j := 0; j < 2; j++ {
+			sg := &c01Stmt{T: tGrouping, Name: name}
+			g.push(name)
+			sg.Kids = g.kidsOfGrouping(sg, 2, vis)
+			v2 := append(append([]*c01Stmt(nil), vis...), sg)
+			c := &c01Stmt{T: tNode, K: kCont, Name: g.node()}
+			if shape == 0 || (shape == 2 && j == 0) {
+				c.Grps = []*c01Stmt{sg}
+				reg := newC01Region()
+				c.Kids = append([]*c01Stmt{g.mkUses(sg, reg)}, g.kids(1, reg, v2, 2)...)
+			} else {
+				gr := &c01Stmt{T: tGrouping, Name: g.group(), Grps: []*c01Stmt{sg}}
+				reg := newC01Region()
+				gr.Kids = append([]*c01Stmt{g.mkUses(sg, reg)}, g.kids(1, reg, v2, 2)...)
+				cl := map[*c01Stmt]bool{gr: true}
+				for x := range reg.used {
+					cl[x] = true
+				}
+				g.closure[gr] = cl
+				f.Grps = append(f.Grps, gr)
+				c.Kids = []*c01Stmt{g.mkUses(gr, newC01Region())}
+			}
+			g.pop()
+			f.Body = append(f.Body, c)
 		}
 	}
 	// module-level augments
@@ -444,7 +520,7 @@ func (ms *c01Modset) countFeatures(ctx *core.Ctx) (nUses, nRef, nAug int) {
 // C01: module sets and their refactorings, loaded by the real parser+resolver+compiler.
 func C01(ctx *core.Ctx) error {
 	ctx.Imports = "Schemac.Ast Schemac.Expand Check.C01Check"
-	ctx.Rule = "case = (module set a, module set b = T a for one meaning-preserving refactoring T, or b = a; accessor dump of both as loaded by parser.LoadModuleFromString with an in-memory source.Opener for submodules and imports). Module sets: main module, 0-2 submodules, 0-2 imported modules, 0-4 module-level groupings (in any file; nested and sibling-scoped groupings; groupings using groupings), uses with when/refine/augment, module-level augments (also into grouping-expanded content, choices, implied cases, earlier augments), config stated at random. T: inline a uses; extract siblings into a grouping; move an augment body into its target; move a definition to a submodule; move a grouping to an imported module; independent copies (drop the refines/augments of the first of two uses, compare under the second). non-trivial = the module set contains at least one uses or augment"
+	ctx.Rule = "case = (module set a, module set b = T a for one meaning-preserving refactoring T, or b = a; accessor dump of both as loaded by parser.LoadModuleFromString with an in-memory source.Opener for submodules and imports). Module sets: main module, 0-2 submodules, 0-2 imported modules, 0-4 module-level groupings (in any file; nested and sibling-scoped groupings, named from a pool of three so that disjoint scopes of one file define DIFFERENT groupings under ONE name, never shadowing an enclosing scope; groupings using groupings), uses with when/refine/augment, module-level augments (also into grouping-expanded content, choices, implied cases, earlier augments), config stated at random. T: inline a uses; extract siblings into a grouping; move an augment body into its target; move a definition to a submodule; move a grouping to an imported module; rename every local grouping definition to a fresh name of its own (always applied when one name is bound by two definitions); independent copies (drop the refines/augments of the first of two uses, compare under the second). non-trivial = the module set contains at least one uses or augment"
 	r := gen.New(ctx.Seed)
 	nsets := ctx.Scale(90, 1500)
 	if ctx.Tier == "search" {
@@ -463,6 +539,11 @@ func C01(ctx *core.Ctx) error {
 		ctx.Count(fmt.Sprintf("uses-augments=%d", c01Min(nAug, 3)))
 		ctx.Count(fmt.Sprintf("module-augments=%d", len(ms.allAugs())))
 		ctx.Count(fmt.Sprintf("files=%d", len(ms.files())))
+		if dup, both := ms.sameNameGroupings(); both {
+			ctx.Count("same-name-groupings-in-two-scopes:both-used")
+		} else if dup {
+			ctx.Count("same-name-groupings-in-two-scopes:not-both-used")
+		}
 
 		oa, sa := c01Load(ms)
 		ctx.Count("load:" + strings.SplitN(sa, ":", 2)[0])
@@ -477,7 +558,7 @@ func C01(ctx *core.Ctx) error {
 
 		// chain of refactorings
 		cur := ms
-		order := []int{1, 2, 3, 4, 5}
+		order := []int{1, 2, 3, 4, 5, 7}
 		for i := range order {
 			j := i + gr.Intn(len(order)-i)
 			order[i], order[j] = order[j], order[i]
@@ -497,6 +578,20 @@ func C01(ctx *core.Ctx) error {
 			ctx.Count("load:" + strings.SplitN(sb, ":", 2)[0])
 			chain = append(chain, step{tk, next, ob, sb, what})
 			cur = next
+		}
+		// a name bound by two different grouping definitions: the renaming law is always checked
+		renamed := false
+		for _, st := range chain {
+			renamed = renamed || st.tk == 7
+		}
+		if dup, _ := cur.sameNameGroupings(); dup && !renamed {
+			next, _ := cur.clone()
+			if what, ok := next.applyRefactoring(7, gr, fresh); ok {
+				ob, sb := c01Load(next)
+				ctx.Count("T:" + c01TNames[7])
+				ctx.Count("load:" + strings.SplitN(sb, ":", 2)[0])
+				chain = append(chain, step{7, next, ob, sb, what})
+			}
 		}
 		if ctx.Explode == ctx.N() {
 			for i := 1; i < len(chain); i++ {
